@@ -347,6 +347,17 @@ def run_case(case, ctx):
         ey = [v for a, b in zip(f["y1"], f["y2"]) for v in (a, b)]
     ctx.check(list(map(float, xp)) == ex and list(map(float, yp)) == ey, "plottable_data",
               lambda: "x_plot=%r y_plot=%r expected %r %r" % (list(xp), list(yp), ex, ey))
+    # the caller post-processes the arrays it was given (in place: they are the caller's)
+    # and asks again: the plottable arrays still trace the pieces of the function
+    if isinstance(xp, np.ndarray) and isinstance(yp, np.ndarray) and xp.dtype == float \
+            and yp.dtype == float:
+        xp *= 1000.0
+        yp += 2.0
+        xp2, yp2 = ctx.call("get_plottable_data_again", real.get_plottable_data)
+        ctx.check(list(map(float, xp2)) == ex and list(map(float, yp2)) == ey,
+                  "plottable_data_after_caller_edited_the_first_result",
+                  lambda: "second call: x_plot=%r y_plot=%r expected %r %r"
+                  % (list(xp2), list(yp2), ex, ey))
     # the function object is unchanged by all of this
     ctx.check(list(real.x) == f["x"], "object_modified", "x changed")
     # the same object after it has been scaled in place: the queries made above must
